@@ -64,7 +64,7 @@ class Stats:
         if out.problems:
             kf = classify(cs.spec, out.problems) if classify else None
             if kf is None:
-                kf = kf11(cs.spec, out.problems)
+                kf = kf11(cs.spec, out.problems) or kf14(cs.spec, out.problems)
             p0 = out.problems[0]
             summ = "%s on `%s` %s" % (p0.get("kind"), "; ".join(e.text() for e in cs.spec.exprs),
                                       {k: v for k, v in p0.items() if k not in ("kind", "tb")})
@@ -97,6 +97,25 @@ def kf11(spec, problems):
     if all(p.get("kind") in KF11_KINDS for p in problems):
         return "KF-11"
     return None
+
+
+def kf14(spec, problems):
+    """KF-14: a rank whose lower-case name is a Python keyword (IN, IS, OR, AS, IF): the loop
+    variable is that keyword, so the text does not parse.  Explains only 'does not parse'."""
+    import keyword
+    ranks = {r for rs in spec.decl.values() for r in rs}
+    if not any(keyword.iskeyword(r.lower()) for r in ranks):
+        return None
+    for p in problems:
+        k = p.get("kind")
+        if k == "syntax-error":
+            continue
+        if k == "exec-error" and p.get("etype") == "SyntaxError":
+            continue
+        if k == "tree-text-mismatch" and str(p.get("text", "")).startswith("SyntaxError"):
+            continue
+        return None
+    return "KF-14"
 
 
 def _short(msg):
